@@ -1,6 +1,8 @@
 CONSTANT Rep = {"a", "b", "c"}
 CONSTANT MaxSteps = 1000000
 CONSTANT Resolutions = {"RemoteWins", "LocalWins", "Merge"}
+CONSTANT EditCap = 99
+CONSTANT Directed = FALSE
 CONSTANT RepOrder <- TNoOrder
 SPECIFICATION CSpec
 CONSTRAINT Progress
